@@ -195,7 +195,7 @@ def run(prog: Program, rep: Report, tier: str = "quick") -> None:
     from . import c01
 
     game.add_instances(rep, c01.closed_form_job, [(i, tier, "R5.5") for i in range(n)], "R5.5", 28 * n, counterpart_only=True)
-    rep.arbitrate({"R5.2", "R5.3"}, "R5.5", "the mu step is the closed form's (its signs follow from the closed form)")
+    rep.arbitrate({"R5.2", "R5.3"}, "R5.5", "the mu step is the closed form's (its signs follow from the closed form)", lenient={"R5.2"})
     rep.supersede({"R5.2", "R5.3"}, "R5.5", "the mu step is the closed form's (its signs follow from the closed form)")
     rep.arbitrate({"R5.1"}, "R5.4", "members move in proportion to their own inflated variance")
     rep.supersede({"R5.1"}, "R5.4", "members move in proportion to their own inflated variance")
